@@ -13,6 +13,8 @@
 //	list <index> <pattern> <offset> <limit> <rev>        => ok <obj,obj,…|-> | err:other
 //	dump                                                 => <key=o;obj | key=r;raw>,… | -   (raw bucket content)
 //	reopen                                               close the Bolt file, open it again, new IndexedStore
+//	mkbucket <key>                                       FOREIGN write: create a nested bucket (with one key inside) under
+//	                                                     <key> in the case's bucket => ok | err:other; dump shows it as key=b
 //
 // <fault>: `-` none, `w<n>` the n-th (0-based) Put/Delete of the transaction returns an error, `c` Commit fails.
 package c15
@@ -359,6 +361,19 @@ func execCase(e *env, ops []string) (out []string) {
 		case "dump":
 			guard(line, func() string {
 				var r []string
+				nested := map[string]bool{}
+				e.db.View(func(tx *bolt.Tx) error {
+					b := tx.Bucket(s.bucket)
+					if b == nil {
+						return nil
+					}
+					return b.ForEach(func(k, v []byte) error {
+						if v == nil {
+							nested[string(k)] = true
+						}
+						return nil
+					})
+				})
 				err := s.raw.View(func(tx storage.ReadOnlyTx) error {
 					kvs, err := tx.List("")
 					if err != nil {
@@ -366,7 +381,9 @@ func execCase(e *env, ops []string) (out []string) {
 					}
 					for _, kv := range kvs {
 						o := new(obj)
-						if o.UnmarshalBinary(kv.Value) == nil {
+						if nested[kv.Key] {
+							r = append(r, kit.Esc(kv.Key)+"=b")
+						} else if o.UnmarshalBinary(kv.Value) == nil {
 							r = append(r, kit.Esc(kv.Key)+"=o;"+renderObj(o))
 						} else {
 							r = append(r, kit.Esc(kv.Key)+"=r;"+kit.Esc(string(kv.Value)))
@@ -378,6 +395,24 @@ func execCase(e *env, ops []string) (out []string) {
 					return "err:other"
 				}
 				return list(r)
+			})
+		case "mkbucket":
+			guard(line, func() string {
+				err := e.db.Update(func(tx *bolt.Tx) error {
+					b, err := tx.CreateBucketIfNotExists(s.bucket)
+					if err != nil {
+						return err
+					}
+					nb, err := b.CreateBucket([]byte(un(t[1])))
+					if err != nil {
+						return err
+					}
+					return nb.Put([]byte("inner"), []byte("x"))
+				})
+				if err != nil {
+					return "err:other"
+				}
+				return "ok"
 			})
 		case "reopen":
 			guard(line, func() string {
